@@ -124,6 +124,10 @@ class Contract:
         """list of (ExceptionClass, condition): the function raises that exception iff condition."""
         return []
 
+    def exc_ensures(self, a, exc):
+        """dict name -> condition that holds whenever the function leaves with exception `exc`."""
+        return {}
+
     def result_value(self, I, a):
         raise NotImplementedError('%s: result_value needed for call-site use' % self.target)
 
@@ -628,6 +632,10 @@ def _verify_cases(con, registry, config, rep, fnode, clsname, qual):
                 con.exc_proof(p, a, res.value, case)
                 if not p.closed:
                     p.qed()
+                # named postconditions of an exceptional exit (state and events at the raise)
+                for nm, g in (con.exc_ensures(a, res.value) or {}).items():
+                    rep.canaries.append(('%s.raised.%s' % (pname, nm), list(res.pc), g))
+                    Proof('%s.raised.%s' % (pname, nm), res.pc, g, rep.obligations, {'kind': 'exc', 'path': pname}).qed()
             elif res.kind == 'cut':
                 pass
     return rep
